@@ -347,6 +347,84 @@ func randInput(r *rand.Rand, alphabet []int, maxlen int) []int {
 	return w
 }
 
+// shareTemplate: one cached list in front of TWO appending consumers whose results are read again later.
+//
+//	M  -> a | aa | ... | a^k        (k alternatives at one position; Go slices of 3, 5, 6, 7 elements have spare capacity)
+//	C1 -> M | x1     C2 -> M | x2   (two different Any's extend M's list with different alternatives)
+//	P  -> C1 t1 | C2 t2 | C1 t3     (C1's cached result is read again after C2 has run), in two orders
+func shareTemplate(r *rand.Rand) (G []gnode, root int, nts []int, inputs [][]int) {
+	b := &gbuilder{r: r}
+	for i := 0; i < 4; i++ {
+		nts = append(nts, b.add(gnode{K: "memo"}))
+	}
+	tm := func(ch int) int { return b.add(gnode{K: "term", Ch: ch, Name: termName(ch)}) }
+	as := func(n int) int {
+		if n == 1 {
+			return tm('a')
+		}
+		var ks []int
+		for i := 0; i < n; i++ {
+			ks = append(ks, tm('a'))
+		}
+		return b.add(gnode{K: "seq", Mode: "of", Kids: ks})
+	}
+	k := []int{3, 3, 5, 6, 7, 4, 2}[r.Intn(7)]
+	var malts []int
+	for i := 1; i <= k; i++ {
+		malts = append(malts, as(i))
+	}
+	extra := func() int {
+		switch r.Intn(5) {
+		case 0:
+			return as(k + 1)
+		case 1:
+			return b.add(gnode{K: "empty"})
+		case 2:
+			return b.add(gnode{K: "opt", Kids: []int{tm('b')}})
+		case 3:
+			return tm('b')
+		default:
+			return as(k + 2)
+		}
+	}
+	consumer := func() int {
+		switch r.Intn(4) {
+		case 0:
+			return b.add(gnode{K: "opt", Kids: []int{nts[1]}})
+		default:
+			return b.add(gnode{K: "any", Kids: []int{nts[1], extra()}})
+		}
+	}
+	b.n[nts[1]-1].Kids = []int{b.add(gnode{K: "any", Kids: malts})}
+	b.n[nts[2]-1].Kids = []int{consumer()}
+	b.n[nts[3]-1].Kids = []int{consumer()}
+	c1, c2 := nts[2], nts[3]
+	if r.Intn(2) == 0 {
+		c1, c2 = c2, c1
+	}
+	alt := func(c, t int) int { return b.add(gnode{K: "seq", Mode: "of", Kids: []int{c, tm(t)}}) }
+	b.n[nts[0]-1].Kids = []int{b.add(gnode{K: "any", Kids: []int{alt(c1, 'c'), alt(c2, 'c'), alt(c1, 'b')}})}
+	end := b.add(gnode{K: "end"})
+	root = b.add(gnode{K: "seq", Mode: "of", Kids: []int{nts[0], end}})
+	for n := 0; n <= k+2; n++ {
+		for _, t := range []int{'b', 'c'} {
+			w := []int{}
+			for i := 0; i < n; i++ {
+				w = append(w, 'a')
+			}
+			inputs = append(inputs, append(w, t))
+		}
+		if n > 0 && n <= k+1 {
+			w := []int{}
+			for i := 0; i < n; i++ {
+				w = append(w, 'a')
+			}
+			inputs = append(inputs, append(w, 'b', 'b'), append(append([]int{}, w...), 'b', 'c'))
+		}
+	}
+	return b.n, root, nts, inputs
+}
+
 func parseGen(a args) {
 	r := rand.New(rand.NewSource(int64(a.num("seed", 1))))
 	n := a.num("n", 200)
@@ -360,15 +438,28 @@ func parseGen(a args) {
 	trace := newOut(a.str("out", ""))
 	written, events, skipped, tried := 0, 0, 0, 0
 	kinds := map[string]int{}
+	tmpl := a.str("tmpl", "")
 	for written < n && tried < n*200 {
 		tried++
-		G, root, nts := genGrammar(r, o)
+		var G []gnode
+		var root int
+		var nts []int
+		var tinputs [][]int
+		if tmpl == "share" {
+			G, root, nts, tinputs = shareTemplate(r)
+			perG = len(tinputs)
+		} else {
+			G, root, nts = genGrammar(r, o)
+		}
 		adm, lrf := admissibleG(G)
 		if !adm || (o.lrfree && !lrf) || (o.productiv && !productiveG(G)) {
 			continue
 		}
 		for k := 0; k < perG && written < n; k++ {
 			w := randInput(r, o.alphabet, maxlen)
+			if tinputs != nil {
+				w = tinputs[k]
+			}
 			b := base
 			if base == 0 {
 				b = 1 + r.Intn(9)
